@@ -15,7 +15,9 @@ EXPLANATION = (
     "be audited / in the baseline, so a weakened guard (i <= len - 1 before a[i + 1]) is reported; (R3) "
     "the position attached to a parse error is read from the same reader the parser ran on; "
     "StringView::position indexes its table only behind the !is_eof() guard and the end-of-text "
-    "position behind a non-empty guard; the program parser ends in demand_eof.")
+    "position behind a non-empty guard; the program parser ends in demand_eof; (R4) the lexer's "
+    "character classes for &O / &H literals are subsets of the domains of the digit converters that "
+    "panic outside them (both tabulated over ASCII).")
 NOT_DECIDED = [
     "absence of arithmetic-overflow panics (debug profile only) and of stack overflow on deep nesting",
     "C07.R2 termination of repetition (nullability of many/delimited element parsers): not built in this revision",
@@ -71,7 +73,42 @@ def r3_error_position(ctx, rule="C07.R3"):
     ctx.require(rule, 5)
 
 
+def r4_token_classes_within_converter_domains(ctx, rule="C07.R4"):
+    """The literal converters panic on a character outside their alphabet (convert_oct_digit,
+    convert_hex_digit): that is safe only because the lexer's character class for the token is a
+    subset of the converter's domain.  Both sides are tabulated over ASCII - the class predicate
+    handed to oct_or_hex_digits, and the characters for which the converter diverges - and compared."""
+    from .. import charpred, tagflow as tf
+    prog = ctx.prog
+    eng = charpred.engine(prog)
+    n = 0
+    for lexer_fn, conv_fn in (("oct_digits", "convert_oct_digit"), ("hex_digits", "convert_hex_digit")):
+        lx = [f for f in prog.fns.values() if f.name == lexer_fn and "tokens::any_token" in f.path and f.kind == "fn"]
+        cv = [f for f in prog.fns.values() if f.name == conv_fn and f.kind == "fn"]
+        if len(lx) != 1 or len(cv) != 1:
+            raise CheckError("anchors %s / %s" % (lexer_fn, conv_fn))
+        lx, cv = lx[0], cv[0]
+        calls = [t for _b, t in lx.body.calls() if mir.callee_path(t).split("::")[-1] == "oct_or_hex_digits"]
+        if len(calls) != 1 or len(calls[0]["args"]) < 2:
+            raise CheckError("%s: call to oct_or_hex_digits not found" % lexer_fn)
+        pred = charpred.pred_of_operand(prog, lx, calls[0]["args"][1])
+        if pred is None:
+            raise CheckError("%s: character class predicate not recognised" % lexer_fn)
+        acc, und = charpred.accepted(eng, prog, pred)
+        if not acc:
+            raise CheckError("%s: empty character class" % lexer_fn)
+        bad = sorted(chr(c) for c in acc | und if eng.divergences(cv, (tf.K(c),)))
+        n += 1
+        ctx.decide(not bad and not und, rule, "%s:%s-within-%s" % (rule, lexer_fn, conv_fn), lx.loc,
+                   "class {%s} is inside the converter's domain" % "".join(sorted(chr(c) for c in acc)),
+                   "the lexer accepts %s in this literal but %s panics on %s: `&O18`-like source text aborts the "
+                   "parser instead of being a syntax error" % (bad, conv_fn, bad))
+    ctx.analysed_units(rule, pairs=n)
+    ctx.require(rule, 2)
+
+
 def run(ctx):
     common.install(ctx)
     panics.r_audit(ctx, "C07.R1", scope="frontend")
     r3_error_position(ctx)
+    r4_token_classes_within_converter_domains(ctx)
